@@ -975,6 +975,12 @@ func (c *Client) backwards(
 		verifiedHeader = interimHeader
 	}
 
+	// the header we were asked to verify must be the one the hash chain leads to
+	if !bytes.Equal(verifiedHeader.Hash(), newHeader.Hash()) {
+		return ErrInvalidHeader{fmt.Errorf("header %X at height %d is not the one linked from the trusted chain (%X)",
+			newHeader.Hash(), newHeader.Height, verifiedHeader.Hash())}
+	}
+
 	return nil
 }
 
